@@ -62,6 +62,21 @@ def chain(kinds, plan, n):
     return h + opens + closes
 
 
+def chain_after_partial_readall(kind, n):
+    """A two-unit AsyncReadAll that parks after the first unit and is completed by the poller; its callback
+    starts a chain of n reads on the same object, so the read that meets the dispatch limit is deferred on a
+    reactor that has carried the progress of an earlier multi-step operation."""
+    h = [E("Reset", kinds=[kind], cls="chain", lim=32, n=0), E("Env", api="send", o=1, n=1),
+         E("Call", api="readall", o=1, op=1, dir="R", n=2), E("Ret", op=1)]
+    h += [E("Env", api="send", o=1, n=1) for _ in range(n + 1)]
+    h += [E("PollB"), E("CbB", op=1, err="nil", n=2)]
+    opens, closes = [], []
+    for i in range(2, n + 2):
+        opens += [E("Call", api="read", o=1, op=i, dir="R", n=1), E("CbB", op=i, err="nil", n=1)]
+        closes = [E("CbE", op=i), E("Ret", op=i)] + closes
+    return h + opens + closes + [E("CbE", op=1), E("PollE", err="nil", n=1)]
+
+
 def long_chains(tier):
     hs = []
     lens = [40] if tier == "quick" else [40, 100]
@@ -80,6 +95,8 @@ def long_chains(tier):
     # limit + 1 nested socket writes under the poller, then a read on a regular file: the second symptom of the
     # known regular-file finding (C14/depth/reg) shows in every tier
     hs.append(chain(["sock", "reg"], [(1, "W")] * 65 + [(2, "R")], 66))
+    for k in ("sock", "pipeR", "adp"):
+        hs.append(chain_after_partial_readall(k, 40))
     return hs
 
 
